@@ -372,6 +372,29 @@ theorem concurrent_own_host (cfg : Config) (hosts : List Bytes) (s : State) (hc 
   | refused => exact hg
   | served c f => exact ⟨hg.1, hg.2.1.1, hg.2.1.2.1, hg.2.1.2.2, hg.2.2⟩
 
+
+/-- The fine-grained schedule theorem started from the cache any history leaves behind (the hypothesis of
+`served_under_every_fine_schedule` holds in every reachable state of a fresh `Config`). -/
+theorem reachable_cache_good (cfg : Config) (rs : List Req) :
+    ∀ k c, (k, c) ∈ (run cfg rs {}).cache → GoodFor k c ∧ c.org = cfg.org := by
+  intro k c hm
+  exact ⟨(cacheInv_run cfg rs cacheInv_init k c hm).1, org_in_every_history cfg rs k c hm⟩
+
+/-- Concurrent handshakes after any history, every fine-grained schedule, time moving between steps: each
+requester that has returned holds a certificate for its own host that was valid when checked. -/
+theorem concurrent_after_any_history (cfg : Config) (rs : List Req) (hosts : List Bytes) (t0 : Int)
+    (sched : List (Nat × Nat)) (i : Nat) (hostname : Bytes) (c : Cert) (f : Bool) (tchk tret : Int)
+    (hh : hosts[i]? = some hostname) (hv : 1000 ≤ cfg.validity) (hs : Servable hostname)
+    (hd : (runF cfg sched { st := run cfg rs {}, clock := t0, threads := hosts.map FPc.start }).threads[i]? =
+      some (.done (.served c f) tchk tret)) :
+    (c.names, c.ips) = sanFor (normalise hostname) ∧ c.org = cfg.org ∧ tchk ≤ tret ∧
+      verifiesFor c (normalise hostname) tchk = true ∧
+      (verifiesFor c (normalise hostname) tret = true ↔ tret ≤ c.notAfter) := by
+  have h := served_under_every_fine_schedule cfg hosts (run cfg rs {}) t0 (reachable_cache_good cfg rs) sched i hostname _ tchk tret hh hd
+  obtain ⟨_, hsan, _, _, horg, hle, hrest⟩ := h
+  obtain ⟨h1, h2, _⟩ := hrest hv hs
+  exact ⟨hsan, horg, hle, h1, h2⟩
+
 /-- The sequential function is the two steps run back to back (so the schedule semantics really is
 `Config.cert` cut at its lock boundaries). -/
 theorem two_steps_are_cert (cfg : Config) (hostname : Bytes) (now : Int) (s : State) :
